@@ -24,6 +24,9 @@ for p in (HERE, REPO):
 sys.dont_write_bytecode = True
 
 
+_REC = None
+
+
 def seed_all(s=12345):
     random.seed(s)
     try:
@@ -126,6 +129,23 @@ def run_scenario(sc):
     if kind == "lib":
         from harness import scenarios
         return {"rc": 0, "result": scenarios.run(arg)}
+    if kind == "libgroup":          # libgroup:<prefix>:<k>:<n>  -> every n-th scenario of that prefix
+        from harness import scenarios
+        from harness.simrec import SpinAbort
+        prefix, k, n = arg.split(":")
+        names = sorted(x for x in scenarios.SCENARIOS if x.startswith(prefix))[int(k)::int(n)]
+        ranges, errors = {}, {}
+        for name in names:
+            seed_all()
+            a = len(_REC.sims)
+            try:
+                scenarios.run(name)
+            except SpinAbort:
+                pass
+            except BaseException as e:  # noqa: BLE001
+                errors[name] = f"{type(e).__name__}: {e}"[:300]
+            ranges[name] = [a, len(_REC.sims)]
+        return {"rc": 0, "ranges": ranges, "errors": errors}
     raise SystemExit(f"unknown scenario {sc}")
 
 
@@ -144,6 +164,8 @@ def main():
     seed_all()
     from harness.simrec import Recorder
     rec = Recorder(keep_log=keep, want_log="--nolog" not in args).install()
+    global _REC
+    _REC = rec
     err = None
     info = {}
     t0 = time.perf_counter()
